@@ -80,6 +80,9 @@ def canon(x):
     return repr(x)
 
 
+_SHARED: dict = {}
+
+
 def calls(C):
     """name -> (thunk, data_dependent, equivalence group|None)"""
     from spil import Sid, FindInPaths, FindInAll, FindInList, WriteToPaths
@@ -90,6 +93,9 @@ def calls(C):
     from spil.sid.pathops.pathconfig import get_path_config
     from spil.sid.read.finders.find_all import get_finder
     from mc import tree
+    from mc import env as _env
+    if _SHARED.clear not in _env.RESET_HOOKS:
+        _env.RESET_HOOKS.append(_SHARED.clear)
     ref, prs, names = C["ref"], C["prs"], C["names"]
     LEAF, SEARCH, forced = C["LEAF"], C["SEARCH"], C["forced"]
     c1, c2 = names[0], names[-1]
@@ -197,6 +203,16 @@ def calls(C):
     add("find_all(FS)-partial", lambda: next(FindInAll().find(FS), None) and "abandoned", data=True)
     add("find_paths(FD)-partial", lambda: next(FindInPaths().find(FD), None) and "abandoned", data=True)
     add("find_list(FD)", lambda: list(FindInList(LST).find(FD)))
+    # one FindInList object that lives as long as the history (a new one after every reset), over a list that is not sorted:
+    # what it answers, and in which order, must not depend on what it was asked before
+    UNSORTED = list(reversed(LST))
+
+    def shared_list():
+        if "f" not in _SHARED:
+            _SHARED["f"] = FindInList(list(UNSORTED))
+        return _SHARED["f"]
+    add("shared_list(FD)", lambda: list(shared_list().find(FD)))
+    add("shared_list(FS)-one", lambda: shared_list().find_one(FS))
     # '>' searches: the unfolded (cached) list is handed to the Finder, which must not change it
     LAST = "/".join(LEAF.split("/")[:C["ver_i"]] + [">"] + LEAF.split("/")[C["ver_i"] + 1:])
     LASTS = "/".join(LEAF.split("/")[:C["ver_i"]] + [">", "*", "*"])
@@ -204,6 +220,7 @@ def calls(C):
     add("unf(LASTS)", lambda: unfold_search(LASTS))
     add("find_list(LAST)", lambda: list(FindInList(LST).find(LAST)))
     add("find_list(LASTS)-one", lambda: FindInList(LST).find_one(LASTS))
+    add("shared_list(LAST)", lambda: list(shared_list().find(LAST)))
     for c in names:
         add(f"find_paths({c},LAST)", lambda c=c: list(FindInPaths(c).find(LAST)), data=True)
         add(f"find_paths({c},LASTS)", lambda c=c: list(FindInPaths(c).find(LASTS)), data=True)
